@@ -119,6 +119,9 @@ func (e *FEnc) instr(st *State, b *ssa.BasicBlock, idx int, in ssa.Instruction) 
 		if p.Root == rRef && len(p.Path) == 0 {
 			e.safetyOb(st, "nil", in, "&"+x.X.Name()+"."+fieldName(x.X.Type(), x.Field), not(eq(p.Ref, "nil_ref")))
 		}
+		if base.NilIf != "" {
+			e.safetyOb(st, "nil", in, "&"+x.X.Name()+"."+fieldName(x.X.Type(), x.Field), not(base.NilIf))
+		}
 		np := p.extend(PathEl{Field: x.Field})
 		e.define(x, &Val{Ty: x.Type(), Sort: "Ref", P: np})
 	case *ssa.Field:
@@ -152,23 +155,15 @@ func (e *FEnc) instr(st *State, b *ssa.BasicBlock, idx int, in ssa.Instruction) 
 	case *ssa.Defer:
 		// effect happens at RunDefers; arguments may leak now
 		for _, a := range x.Call.Args {
-			v := e.valOf(a)
-			if v.P != nil {
-				e.reify(v.P)
-			}
+			e.leakVal(e.valOf(a))
 		}
 		if x.Call.Value != nil {
-			if v := e.valOf(x.Call.Value); v.P != nil {
-				e.reify(v.P)
-			}
+			e.leakVal(e.valOf(x.Call.Value))
 		}
 	case *ssa.Go:
 		e.note("go statement: goroutine body not modelled")
 		for _, a := range x.Call.Args {
-			v := e.valOf(a)
-			if v.P != nil {
-				e.reify(v.P)
-			}
+			e.leakVal(e.valOf(a))
 		}
 		e.havocHeap(st)
 		e.havocLeaked(st)
@@ -199,7 +194,8 @@ func (e *FEnc) instr(st *State, b *ssa.BasicBlock, idx int, in ssa.Instruction) 
 		t := e.defTerm("box", fmt.Sprintf("(%s %s)", box, e.term(v)), "Iface")
 		e.fact(eq(fmt.Sprintf("(%s %s)", unbox, t), e.term(v)))
 		e.fact(eq(fmt.Sprintf("(tagof %s)", t), fmt.Sprint(e.d.tagOf(x.X.Type()))))
-		e.define(x, &Val{Ty: x.Type(), Sort: "Iface", T: t})
+		e.markAliased(v)
+		e.define(x, &Val{Ty: x.Type(), Sort: "Iface", T: t, Box: v})
 	case *ssa.ChangeInterface:
 		v := e.valOf(x.X)
 		e.define(x, &Val{Ty: x.Type(), Sort: "Iface", T: e.term(v)})
@@ -252,10 +248,7 @@ func (e *FEnc) instr(st *State, b *ssa.BasicBlock, idx int, in ssa.Instruction) 
 		e.next(st, x)
 	case *ssa.MakeClosure:
 		for _, bnd := range x.Bindings {
-			v := e.valOf(bnd)
-			if v.P != nil {
-				e.reify(v.P)
-			}
+			e.leakVal(e.valOf(bnd))
 		}
 		t := e.fresh("clo", "Fn")
 		e.fact(not(eq(t, "nil_fn")))
@@ -408,6 +401,9 @@ func (e *FEnc) unop(st *State, x *ssa.UnOp) {
 		if p.Root == rRef && len(p.Path) == 0 {
 			e.safetyOb(st, "nil", x, "*"+x.X.Name(), not(eq(p.Ref, "nil_ref")))
 		}
+		if v.NilIf != "" {
+			e.safetyOb(st, "nil", x, "*"+x.X.Name(), not(v.NilIf))
+		}
 		lv := e.load(st, p)
 		e.define(x, lv)
 	case token.NOT:
@@ -473,7 +469,16 @@ func (e *FEnc) ovfProps() []string {
 
 func opText(v ssa.Value) string {
 	if b, ok := v.(*ssa.BinOp); ok {
-		return fmt.Sprintf("%s%s%s", b.X.Name(), b.Op.String(), b.Y.Name())
+		nm := func(x ssa.Value) string {
+			if ph, ok := x.(*ssa.Phi); ok && ph.Comment != "" {
+				return ph.Comment
+			}
+			if c, ok := x.(*ssa.Const); ok && c.Value != nil {
+				return c.Value.ExactString()
+			}
+			return x.Name()
+		}
+		return fmt.Sprintf("%s%s%s", nm(b.X), b.Op.String(), nm(b.Y))
 	}
 	return v.Name()
 }
@@ -748,7 +753,7 @@ func (e *FEnc) sliceInstr(st *State, x *ssa.Slice) {
 				h := e.heapGet(st, hn, hs)
 				e.heapSet(st, hn, hs, fmt.Sprintf("(store %s %s %s)", h, base, e.term(cell)))
 				a.Published = true
-				a.Leaked = true
+				e.leak(p.Alloc)
 			}
 			e.define(x, &Val{Ty: x.Type(), Sort: "Slice", T: fmt.Sprintf("(mk_slice %s %s (- %s %s) (- %s %s))", base, lo, hi, lo, n, lo)})
 			return
